@@ -617,6 +617,26 @@ theorem dedup_idempotent (g : Bool) (b : Bag) (hn : (names b).Nodup) :
     obtain ⟨c1, c2, c3, c4⟩ := h4
     exact ⟨b1.trans c1, b2.trans c2, b3.trans c3, b4.trans c4⟩
 
+/-- **No assumption on the names** (any container whatsoever, policies NONE and IGNORE_SEQUENCE): even when a
+caller's `Rename` has made names collide — re-adding then renames rows — the kept *sequences* are exactly the
+first occurrences in original order, the groups are exactly the reference groups, and no error is reported.
+(Under IGNORE_NAME rows with a repeated name are dropped: `dedup_repeated_names_dropped`.) -/
+theorem dedup_sequences_any_names (g : Bool) (b : Bag) (hpol : b.policy ≠ IGNORE_NAME) :
+    (deduplicate g b).2.1 = false ∧
+    (pairs (deduplicate g b).1).map Prod.snd = (firstOccs (dedupKey b.alphabet g) (pairs b)).map Prod.snd ∧
+    (deduplicate g b).2.2 = groupsOf (dedupKey b.alphabet g) (pairs b) ∧
+    SameSettings b (deduplicate g b).1 := by
+  obtain ⟨a1, a2, a3, a4⟩ := dedupLoop_seqs b.alphabet g b.rows (clearBase b) [] [] [] (by simpa [clearBase] using hpol)
+    rfl (by simp) rfl rfl (by simp)
+  refine ⟨a1, ?_, ?_, a4⟩
+  · have e : (dedupRows (dedupKey b.alphabet g) (pairs b) []).map (fun e => e.2.2.1) =
+        ((dedupRows (dedupKey b.alphabet g) (pairs b) []).map rowOf).map Prod.snd := by
+      rw [List.map_map]; rfl
+    rw [← dedupRows_rows, ← e]
+    exact a2
+  · rw [← dedupRows_groups]
+    exact a3
+
 /-- what the comparison key is: the sequence itself, or (with `nAsGap`) the sequence with every `N`
 (nucleotides) resp. `X` (amino acids) replaced by a gap; other alphabets are compared literally -/
 theorem dedupKey_spec (s : Seq) :
@@ -676,6 +696,8 @@ example : (deduplicate true (deduplicate true exBag).1).2.2 = [["a"], ["c"]] := 
 
 /-- why the names must be pairwise distinct: after a caller's `Rename` has given every row the name `a`,
 re-adding renames the kept rows (policy NONE) … -/
+example : (renameWith (fun _ => "a") exBag).policy ≠ IGNORE_NAME := by decide
+
 theorem dedup_repeated_names_renamed :
     pairs (deduplicate false (renameWith (fun _ => "a") exBag)).1 =
       [("a", [65, 67, 78]), ("a_0001", [65, 67, 45]), ("a_0002", [84, 84, 84])] ∧
